@@ -12,7 +12,9 @@ emits push(a) . d . pop(a).
 STRICT clause: a grp (or fill item) may be FLAT only if, read in FLAT mode, it reaches no hard and no ab.
 KF1 clause (known finding C04-hardline-in-flat-group): FLAT is also tolerated if the first forced
 element reached in FLAT mode is a `hard` (not an `ab`) and the group holds no `ab` in a position from
-which normalisation hoists it (through cat / nest / grp, or as a direct fill item).
+which normalisation hoists it (through cat / nest / grp, or as a direct fill item).  Normalisation does not
+descend into fill items, so for a fill item nothing inside it is hoisted: the item is tolerated FLAT whenever
+the first forced element reached is a `hard` (an item that is itself an `ab` is laid out broken).
 """
 BREAK, FLAT = 0, 1
 
@@ -88,12 +90,16 @@ class Matcher:
         self.budget = budget
         self.used_kf1 = False
 
-    def may_flat(self, t):
+    def may_flat(self, t, fill_item=False):
         """t is the body of a group / a fill item"""
         ff = first_forced(t, self.ff)
         if ff is None:
             return True
         if self.clause == KF1 and ff == 'hard':
+            if fill_item:
+                # normalisation does not descend into fill items: nothing inside one is hoisted (an item that IS an
+                # always_break is laid out broken - handled by the caller)
+                return True
             key = id(t)
             if key not in self.hz:
                 self.hz[key] = hoistable_ab(t)
@@ -177,7 +183,7 @@ class Matcher:
             def modes(it):
                 if it[0] == 'ab':
                     return (BREAK,)
-                return (FLAT, BREAK) if self.may_flat(it) else (BREAK,)
+                return (FLAT, BREAK) if self.may_flat(it, fill_item=True) else (BREAK,)
             return self._seq(t[1], modes, indent, pos, col)
         raise ValueError(t)
 
